@@ -167,6 +167,8 @@ RunCtl ctl_from_plan(Plan const& p)
     c.nested = (mix2(p.fseed, 60001) % 8) == 0 && p.scn != "lattice";
     c.user_stateful = (mix2(p.fseed, 60002) & 1) != 0;
     c.base_typed = (mix2(p.fseed, 60003) & 1) != 0;
+    c.params_from_chkpt = (mix2(p.fseed, 60004) % 3) == 0;
+    c.fs_yield_p = (p.P != 0 && (mix2(p.sseed, 71) & 1)) ? 0.3 : 0.0;
 
     for (auto const& f : p.faults)
     {
